@@ -4,6 +4,8 @@
 // UBSan's array-index check nor the index probe can observe. (A far out-of-bounds index lands in other mapped memory and is
 // invisible to ASan; that case is covered by the index probe.) The hook below names the entry point and the input.
 #include <fixedmath/fixed_math.hpp>
+#include <fixedmath/iostream.h>
+#include <sstream>
 #include <cstdio>
 #include <cstdint>
 #include <vector>
@@ -62,6 +64,11 @@ int main(int argc, char** argv)
     g_entry = "atan_aprox"; sink = atan_aprox(as_fixed(x)).v;
     g_calls += 3;
     }
+  g_entry = "operator<< (std::ostream, fixed_t)";
+  { std::vector<i64> Ss = S_set(6, 2); for( i64 e = 1; e < 1000000000000000000ll; e *= 10 ) for( i64 d = -1; d <= 1; ++d ) { Ss.push_back((e + d) * 65536); Ss.push_back(-(e + d) * 65536); Ss.push_back(e + d); Ss.push_back(-(e + d)); }
+    size_t total = 0;
+    for( i64 x : Ss ) { g_a = x; std::ostringstream os; os << as_fixed(x); total += os.str().size(); ++g_calls; }
+    sink = static_cast<i64>(total); }
   g_entry = "hypot_aprox";
   for( i64 a : Sp ) for( i64 b : Sp ) { g_a = a; g_b = b; sink = hypot_aprox(as_fixed(a), as_fixed(b)).v; ++g_calls; }
   g_b = 0;
